@@ -131,126 +131,7 @@ func TestC15_Errors(t *testing.T) {
 		}
 		cov.Exhaustive("word counts 0..40 outside the five acceptable ones x 10 languages")
 	}
-	k := 0
-	rapidCheck(t, func(rt *rapid.T) {
-		l := gen.Lang().Draw(rt, "lang")
-		idx := gen.ValidIndices().Draw(rt, "valid")
-		n := len(idx)
-		golden := ref.Golden(l)
-		want := rapid.SampledFrom([]string{"count", "checksum", "checksum", "unknown", "unknown", "unknown", "valid"}).Draw(rt, "want")
-		var s string
-		switch want {
-		case "valid":
-			s = strings.Join(ref.Words(l, idx), " ")
-		case "count":
-			cnt := rapid.IntRange(0, 40).Draw(rt, "k")
-			if ref.ValidCount(cnt) {
-				cnt++
-			}
-			ws := make([]string, cnt)
-			for i := range ws {
-				ws[i] = golden[gen.Index().Draw(rt, "w")]
-			}
-			s = strings.Join(ws, " ")
-		case "checksum":
-			sol := map[int]bool{}
-			for _, x := range ref.SolveLast(idx[:n-1]) {
-				sol[x] = true
-			}
-			cs := uint(n / 3)
-			var last int
-			if rapid.Bool().Draw(rt, "cs-bits-only") {
-				last = idx[n-1]&^(1<<cs-1) | rapid.IntRange(0, 1<<cs-1).Draw(rt, "cs")
-			} else {
-				last = rapid.IntRange(0, 2047).Draw(rt, "last")
-			}
-			for sol[last] {
-				last = (last + 1) % 2048
-			}
-			if z := rapid.IntRange(0, 3).Draw(rt, "zero-words"); z > 0 {
-				// entropy with leading zero bytes: keep the prefix, re-derive a wrong last word
-				for i := 0; i < 2*z && i < n-1; i++ {
-					idx[i] = 0
-				}
-				sol = map[int]bool{}
-				for _, x := range ref.SolveLast(idx[:n-1]) {
-					sol[x] = true
-				}
-				for sol[last] {
-					last = (last + 1) % 2048
-				}
-			}
-			s = strings.Join(ref.Words(l, append(append([]int(nil), idx[:n-1]...), last)), " ")
-		case "unknown":
-			words := ref.Words(l, idx)
-			if rapid.Bool().Draw(rt, "wrong-checksum-too") {
-				words[n-1] = golden[rapid.IntRange(0, 2047).Draw(rt, "last")]
-			}
-			for m := rapid.IntRange(1, 3).Draw(rt, "m"); m > 0; m-- {
-				p := rapid.IntRange(0, n-1).Draw(rt, "pos")
-				var junk string
-				switch rapid.IntRange(0, 4).Draw(rt, "junk-kind") {
-				case 0:
-					junk = ref.Golden(gen.Lang().Draw(rt, "other"))[rapid.IntRange(0, 2047).Draw(rt, "oi")]
-				case 1:
-					junk = strings.ToUpper(words[p])
-				case 2:
-					junk = words[p] + rapid.SampledFrom([]string{"s", "x", "\u0301", "\u3099", "."}).Draw(rt, "suffix")
-				case 3:
-					junk = gen.UString(3).Draw(rt, "ustr")
-				default:
-					junk = gen.BString(10).Draw(rt, "bstr")
-				}
-				// construction, not rejection: strip what would change the token count or make it a list word
-				junk = strings.Join(strings.Fields(ref.NFKD(junk)), "#") // "#": never fuse byte fragments into a new rune
-				if _, isWord := ref.WordIndex(l, ref.NFKD(junk)); isWord || junk == "" {
-					junk += "#"
-				}
-				words[p] = junk
-			}
-			s = strings.Join(words, " ")
-			// whole-string NFKD may differ from token-wise NFKD (a token starting with a combining
-			// mark); if that changed the token structure, fall back to a plain unknown token
-			if len(strings.Split(ref.NFKD(s), " ")) != n {
-				words = ref.Words(l, idx)
-				words[0] = "notaword#"
-				s = strings.Join(words, " ")
-				cov.Class("unknown-fallback")
-			}
-		}
-		if rapid.IntRange(0, 3).Draw(rt, "compat-separators") == 0 {
-			// tokens are defined on the NFKD form: any compatibility space is a separator too
-			if rapid.Bool().Draw(rt, "one-kind") {
-				s = strings.ReplaceAll(s, " ", string(rapid.SampledFrom(gen.NFKDSpaces).Draw(rt, "space")))
-			} else {
-				var b strings.Builder
-				for _, r := range s {
-					if r == ' ' && rapid.Bool().Draw(rt, "swap") {
-						r = rapid.SampledFrom(gen.NFKDSpaces).Draw(rt, "sp")
-					}
-					b.WriteRune(r)
-				}
-				s = b.String()
-			}
-			cov.Class("compat-space-separators")
-		}
-		c := &errCase{Lang: l.Name(), Text: text(s), Want: want}
-		if want == "valid" && rapid.Bool().Draw(rt, "then-other-language") {
-			// the sentence was just accepted under its own language; now it is judged under another
-			// one, where it has unknown tokens (or, for shared words, only a checksum defect)
-			l2 := gen.Lang().Draw(rt, "lang2")
-			if class, _ := classifyText(l2, s); class != "combined" && l2 != l {
-				c = &errCase{Lang: l2.Name(), Text: text(s), Want: class, Prime: &primeCall{Lang: l.Name(), Text: text(s)}}
-				l = l2
-				cov.Class("primed-by-valid-under-other-language")
-			}
-		}
-		c15Record(c, l)
-		if k++; k%499 == 1 {
-			cov.Sample("c15.error", c)
-		}
-		judge(rt, "c15.error", c15Check, c)
-	})
+	rapidCheck(t, c15ErrorsProp)
 }
 
 func c15Record(c *errCase, l ref.Lang) {
@@ -263,4 +144,134 @@ func c15Record(c *errCase, l ref.Lang) {
 		return
 	}
 	cov.NonTrivial("c15", []byte(c.Lang), []byte(c.Text))
+}
+
+var c15ErrorsPropK int
+
+// c15ErrorsProp is the rapid property behind the test above and the native fuzz target below.
+func c15ErrorsProp(rt *rapid.T) {
+	l := gen.Lang().Draw(rt, "lang")
+	idx := gen.ValidIndices().Draw(rt, "valid")
+	n := len(idx)
+	golden := ref.Golden(l)
+	want := rapid.SampledFrom([]string{"count", "checksum", "checksum", "unknown", "unknown", "unknown", "valid"}).Draw(rt, "want")
+	var s string
+	switch want {
+	case "valid":
+		s = strings.Join(ref.Words(l, idx), " ")
+	case "count":
+		cnt := rapid.IntRange(0, 40).Draw(rt, "k")
+		if ref.ValidCount(cnt) {
+			cnt++
+		}
+		ws := make([]string, cnt)
+		for i := range ws {
+			ws[i] = golden[gen.Index().Draw(rt, "w")]
+		}
+		s = strings.Join(ws, " ")
+	case "checksum":
+		sol := map[int]bool{}
+		for _, x := range ref.SolveLast(idx[:n-1]) {
+			sol[x] = true
+		}
+		cs := uint(n / 3)
+		var last int
+		if rapid.Bool().Draw(rt, "cs-bits-only") {
+			last = idx[n-1]&^(1<<cs-1) | rapid.IntRange(0, 1<<cs-1).Draw(rt, "cs")
+		} else {
+			last = rapid.IntRange(0, 2047).Draw(rt, "last")
+		}
+		for sol[last] {
+			last = (last + 1) % 2048
+		}
+		if z := rapid.IntRange(0, 3).Draw(rt, "zero-words"); z > 0 {
+			// entropy with leading zero bytes: keep the prefix, re-derive a wrong last word
+			for i := 0; i < 2*z && i < n-1; i++ {
+				idx[i] = 0
+			}
+			sol = map[int]bool{}
+			for _, x := range ref.SolveLast(idx[:n-1]) {
+				sol[x] = true
+			}
+			for sol[last] {
+				last = (last + 1) % 2048
+			}
+		}
+		s = strings.Join(ref.Words(l, append(append([]int(nil), idx[:n-1]...), last)), " ")
+	case "unknown":
+		words := ref.Words(l, idx)
+		if rapid.Bool().Draw(rt, "wrong-checksum-too") {
+			words[n-1] = golden[rapid.IntRange(0, 2047).Draw(rt, "last")]
+		}
+		for m := rapid.IntRange(1, 3).Draw(rt, "m"); m > 0; m-- {
+			p := rapid.IntRange(0, n-1).Draw(rt, "pos")
+			var junk string
+			switch rapid.IntRange(0, 4).Draw(rt, "junk-kind") {
+			case 0:
+				junk = ref.Golden(gen.Lang().Draw(rt, "other"))[rapid.IntRange(0, 2047).Draw(rt, "oi")]
+			case 1:
+				junk = strings.ToUpper(words[p])
+			case 2:
+				junk = words[p] + rapid.SampledFrom([]string{"s", "x", "\u0301", "\u3099", "."}).Draw(rt, "suffix")
+			case 3:
+				junk = gen.UString(3).Draw(rt, "ustr")
+			default:
+				junk = gen.BString(10).Draw(rt, "bstr")
+			}
+			// construction, not rejection: strip what would change the token count or make it a list word
+			junk = strings.Join(strings.Fields(ref.NFKD(junk)), "#") // "#": never fuse byte fragments into a new rune
+			if _, isWord := ref.WordIndex(l, ref.NFKD(junk)); isWord || junk == "" {
+				junk += "#"
+			}
+			words[p] = junk
+		}
+		s = strings.Join(words, " ")
+		// whole-string NFKD may differ from token-wise NFKD (a token starting with a combining
+		// mark); if that changed the token structure, fall back to a plain unknown token
+		if len(strings.Split(ref.NFKD(s), " ")) != n {
+			words = ref.Words(l, idx)
+			words[0] = "notaword#"
+			s = strings.Join(words, " ")
+			cov.Class("unknown-fallback")
+		}
+	}
+	if rapid.IntRange(0, 3).Draw(rt, "compat-separators") == 0 {
+		// tokens are defined on the NFKD form: any compatibility space is a separator too
+		if rapid.Bool().Draw(rt, "one-kind") {
+			s = strings.ReplaceAll(s, " ", string(rapid.SampledFrom(gen.NFKDSpaces).Draw(rt, "space")))
+		} else {
+			var b strings.Builder
+			for _, r := range s {
+				if r == ' ' && rapid.Bool().Draw(rt, "swap") {
+					r = rapid.SampledFrom(gen.NFKDSpaces).Draw(rt, "sp")
+				}
+				b.WriteRune(r)
+			}
+			s = b.String()
+		}
+		cov.Class("compat-space-separators")
+	}
+	c := &errCase{Lang: l.Name(), Text: text(s), Want: want}
+	if want == "valid" && rapid.Bool().Draw(rt, "then-other-language") {
+		// the sentence was just accepted under its own language; now it is judged under another
+		// one, where it has unknown tokens (or, for shared words, only a checksum defect)
+		l2 := gen.Lang().Draw(rt, "lang2")
+		if class, _ := classifyText(l2, s); class != "combined" && l2 != l {
+			c = &errCase{Lang: l2.Name(), Text: text(s), Want: class, Prime: &primeCall{Lang: l.Name(), Text: text(s)}}
+			l = l2
+			cov.Class("primed-by-valid-under-other-language")
+		}
+	}
+	c15Record(c, l)
+	if c15ErrorsPropK++; c15ErrorsPropK%499 == 1 {
+		cov.Sample("c15.error", c)
+	}
+	judge(rt, "c15.error", c15Check, c)
+}
+
+// FuzzC15 drives the same property coverage-guided (thorough tier): the fuzzer's bytes are
+// rapid's source of choices.
+func FuzzC15(f *testing.F) {
+	cov.Rule(c15Rule)
+	f.Fuzz(rapid.MakeFuzz(c15ErrorsProp))
 }
